@@ -1644,7 +1644,9 @@ class Stream(AbstractStream):
                 self._imol._set_cache()
         if phase and self._imol.data.ndim == 1:
             self._imol._phase = other._imol._phase
-        if hasattr(self, '_streams'): self._streams = {} # Phase views refer to the old data
+        if hasattr(self, '_streams'):
+            self._streams = {} # Phase views refer to the old data
+            self.reset_cache() # Equilibrium methods refer to the old thermal condition
             
     def unlink(self):
         """
